@@ -284,6 +284,23 @@ pub fn run(ctx: &Ctx) -> i32 {
     Sweep(u32, u32),
   }
   let mut jobs: Vec<Job> = (1..=n_exh).map(Job::Small).collect();
+  // every integer literal of the current sources that is a valid nside (and its neighbours): key
+  // cells + layout constants, like the nside sweep
+  {
+    let mut lits: Vec<u32> = vec![];
+    for &l in crate::alpha::source_literals().0.iter() {
+      for n in [l.saturating_sub(1), l, l.saturating_add(1)] {
+        if n >= 1 && n <= (1u64 << 29) {
+          lits.push(n as u32);
+        }
+      }
+    }
+    lits.sort();
+    lits.dedup();
+    for n in lits {
+      jobs.push(Job::Sweep(n, n));
+    }
+  }
   // nside sweep: EVERY nside up to the bound (key cells + layout constants), then a stride
   let n_sweep: u32 = if quick { 40_000 } else { 1 << 20 };
   {
